@@ -251,7 +251,7 @@ def kind_counts(roots):
 # ----------------------------------------------------------------------------------------------
 def _pkey(p):
     if isinstance(p, np.ndarray):
-        return ["nd", list(p.shape), p.tobytes().hex()[:256]]
+        return ["nd", list(p.shape), p.tobytes().hex()[:2048]]
     try:
         f = float(p)
         fr = Fraction(f)
@@ -497,12 +497,12 @@ class HeapBuilder:
 # ----------------------------------------------------------------------------------------------
 LABEL_POOL = ["A", "B", "C", 0, 1, "foo", (1, 2)]
 GATE_CLS = {"cx": CXGate, "rzz": RZZGate, "rzx": RZXGate, "swap": SwapGate, "cz": CZGate, "ryy": RYYGate, "crx": CRXGate}
-CUTTABLE = set(GATE_CLS)
+CUTTABLE = set(GATE_CLS) | {"unitary"}    # a UnitaryGate (matrix with a global phase, det != 1) is cut through the KAK path
 # UnitaryGate instructions in INPUT circuits: QuantumCircuit.copy() / Instruction.copy() copy the params LIST but not an
 # ndarray inside it, so every copying entry point shares the matrix with its result (known finding F20).  The heap model
 # has no ndarray parameters; the roots that satisfy the F20 predicate are taken out of the compared observation.
 WITH_UNITARY = True     # on by default: the array sharing it exposes is the known finding F20
-GATE_CLS["unitary"] = lambda: __import__("qiskit.circuit.library", fromlist=["UnitaryGate"]).UnitaryGate(RZXGate(0.375).to_matrix())
+GATE_CLS["unitary"] = lambda: __import__("qiskit.circuit.library", fromlist=["UnitaryGate"]).UnitaryGate(np.exp(0.3j) * RZXGate(0.375).to_matrix())
 BIG_SRC = ["swap", "rzx", "ryy", "crx"]       # bases with non-singleton gate objects (and 58 maps for swap / rzx)
 SMALL_SRC = ["cx", "rzz", "cz"]               # 6-map bases of singleton gates only
 
@@ -638,7 +638,7 @@ def sides_of(qc, labels):
 
 
 def two_q_plain_ids(qc):
-    return [k for k, i in enumerate(qc.data) if len(i.qubits) == 2 and i.operation.name in CUTTABLE and i.operation.name != "unitary"]
+    return [k for k, i in enumerate(qc.data) if len(i.qubits) == 2 and i.operation.name in CUTTABLE]
 
 
 # ----------------------------------------------------------------------------------------------
@@ -1120,7 +1120,7 @@ class Gen:
 
 def safe_ids(cd):
     """instruction indices of the cuttable two-qubit gates of a description (no implementation call involved)"""
-    return [k for k, o in enumerate(cd["ops"]) if len(o["q"]) == 2 and o["g"] in CUTTABLE and o["g"] != "unitary"]
+    return [k for k, o in enumerate(cd["ops"]) if len(o["q"]) == 2 and o["g"] in CUTTABLE]
 
 
 def qpd_positions(cd):
@@ -1465,7 +1465,7 @@ def witness(name):
                          ("find_cuts", lambda q: find_cuts(q, OptimizationParameters(seed=1), DeviceConstraints(2))[0]),
                          ("decompose_qpd_instructions", lambda q: decompose_qpd_instructions(q, [], []))):
             qc = QuantumCircuit(2)
-            qc.append(UnitaryGate(RZXGate(0.375).to_matrix()), [0, 1])
+            qc.append(UnitaryGate(np.exp(0.3j) * RZXGate(0.375).to_matrix()), [0, 1])
             m_in = qc.data[0].operation.params[0]
             ref = m_in.copy()
             try:
